@@ -41,7 +41,7 @@ def quote_match(match):
     return quote(match.group(0))
 
 
-def _unquote_impl(string, only_printable=False, unsafe=None):
+def _unquote_impl(string, only_printable=False, unsafe=None, escape_dangling=False):
     string = string.encode("utf-8")
     bits = string.split(b"%")
     if len(bits) == 1:
@@ -70,13 +70,17 @@ def _unquote_impl(string, only_printable=False, unsafe=None):
                 append(b)
                 append(item[2:])
         else:
-            append(b"%")
+            # NOTE: a "%" that does not start an escape is literal, we can
+            # write it "%25" so that it has a single unambiguous spelling
+            append(b"%25" if escape_dangling else b"%")
             append(item)
 
     return res
 
 
-def _generate_unquoted_parts(string, only_printable=False, unsafe=None):
+def _generate_unquoted_parts(
+    string, only_printable=False, unsafe=None, escape_dangling=False
+):
     previous_match_end = 0
     for ascii_match in ASCII_RE.finditer(string):
         start, end = ascii_match.span()
@@ -84,9 +88,12 @@ def _generate_unquoted_parts(string, only_printable=False, unsafe=None):
         # The ascii_match[1] group == string[start:end].
 
         m = ascii_match.group(1)
-        c = _unquote_impl(m, only_printable=only_printable, unsafe=unsafe).decode(
-            "utf-8", "ural_keep_escaped"
-        )
+        c = _unquote_impl(
+            m,
+            only_printable=only_printable,
+            unsafe=unsafe,
+            escape_dangling=escape_dangling,
+        ).decode("utf-8", "ural_keep_escaped")
 
         # NOTE: C1 control characters only appear once bytes are decoded
         if only_printable:
@@ -99,7 +106,13 @@ def _generate_unquoted_parts(string, only_printable=False, unsafe=None):
 
 
 # NOTE: here, unsafe must be a container of bytes
-def unquote(string, only_printable=False, unsafe=None, normalize_space=False):
+def unquote(
+    string,
+    only_printable=False,
+    unsafe=None,
+    normalize_space=False,
+    escape_dangling=False,
+):
     if "%" not in string:
         if normalize_space:
             return string.replace(" ", "%20")
@@ -107,7 +120,12 @@ def unquote(string, only_printable=False, unsafe=None, normalize_space=False):
         return string
 
     q = "".join(
-        _generate_unquoted_parts(string, only_printable=only_printable, unsafe=unsafe)
+        _generate_unquoted_parts(
+            string,
+            only_printable=only_printable,
+            unsafe=unsafe,
+            escape_dangling=escape_dangling,
+        )
     )
 
     if normalize_space:
@@ -129,16 +147,32 @@ UNSAFE_FOR_FRAGMENT = b" %"
 
 # NOTE: those method should only be used on parsed urls to canonicalize/normalize.
 safely_unquote_auth_item = partial(
-    unquote, only_printable=True, normalize_space=True, unsafe=UNSAFE_FOR_AUTH_ITEM
+    unquote,
+    only_printable=True,
+    normalize_space=True,
+    escape_dangling=True,
+    unsafe=UNSAFE_FOR_AUTH_ITEM,
 )
 safely_unquote_path = partial(
-    unquote, only_printable=True, normalize_space=True, unsafe=UNSAFE_FOR_PATH
+    unquote,
+    only_printable=True,
+    normalize_space=True,
+    escape_dangling=True,
+    unsafe=UNSAFE_FOR_PATH,
 )
 safely_unquote_query_item = partial(
-    unquote, only_printable=True, normalize_space=True, unsafe=UNSAFE_FOR_QUERY_ITEM
+    unquote,
+    only_printable=True,
+    normalize_space=True,
+    escape_dangling=True,
+    unsafe=UNSAFE_FOR_QUERY_ITEM,
 )
 safely_unquote_fragment = partial(
-    unquote, only_printable=True, normalize_space=True, unsafe=UNSAFE_FOR_FRAGMENT
+    unquote,
+    only_printable=True,
+    normalize_space=True,
+    escape_dangling=True,
+    unsafe=UNSAFE_FOR_FRAGMENT,
 )
 
 
